@@ -268,6 +268,83 @@ def plot_positions(d):
     return dict((int(s.idx), float(x)) for s, x in p._cached_positions.items())
 
 
+
+# ---- the cache machine of ADModel/Cache.lean driven with the same history -----------------------------
+
+def impl_cache_state(d):
+    out = {}
+    for sid, s in d._structures_dict.items():
+        out[int(sid)] = {'par': None if s.parent is None else int(s.parent.idx), 'kids': [int(c.idx) for c in s.children],
+                         'lvl': s._level, 'anc': None if not s._ancestor else int(s._ancestor.idx),
+                         'desc': s._descendants is not None, 'nw': getattr(s, '_newick', None) is not None}
+    return out
+
+
+def parse_cache_state(lines):
+    st, ans = {}, None
+    for l in lines:
+        if l.startswith('ans '):
+            ans = l[4:]
+        elif l.startswith('c '):
+            f = dict(x.split('=', 1) for x in l[2:].split())
+            st[int(f['id'])] = {'par': None if f['par'] == '-' else int(f['par']), 'kids': [] if f['kids'] == '-' else [int(x) for x in f['kids'].split(',')],
+                                'lvl': None if f['lvl'] == '-' else int(f['lvl']), 'anc': None if f['anc'] == '-' else int(f['anc']),
+                                'desc': f['desc'] == '1', 'nw': f['nw'] == '1'}
+        elif l.startswith('bad-op'):
+            return None, l
+    return st, ans
+
+
+def cache_diff(d, lines, label):
+    st, ans = parse_cache_state(lines)
+    if st is None:
+        return ['%scache model rejected the request: %s' % (label, ans)], None
+    out = []
+    mine = impl_cache_state(d)
+    for sid, c in mine.items():
+        if sid not in st:
+            out.append('%sstructure %d missing in the cache model' % (label, sid))
+            continue
+        for k in ('par', 'kids', 'lvl', 'desc', 'nw'):
+            if c[k] != st[sid][k]:
+                out.append('%scache state of structure %d: %s impl=%r model=%r' % (label, sid, k, c[k], st[sid][k]))
+        # `_ancestor` is also filled by compute itself; what the proofs need (P17.Sound) is that a cached
+        # ancestor is a proper ancestor by the live links -- check that invariant on the real objects
+        if c['anc'] is not None:
+            a, chain = c['par'], []
+            while a is not None and a in mine:
+                chain.append(a)
+                a = mine[a]['par']
+            if c['anc'] not in chain:
+                out.append('%scached _ancestor of structure %d is %r, not one of its ancestors %r' % (label, sid, c['anc'], chain))
+    return out[:6], ans
+
+
+def mirror_queries(d, drv, kinds, res, label):
+    """the queries of session.warm, one at a time, on implementation and cache model"""
+    for s in list(d):
+        for kind, attr in (('level', 'level'), ('desc', 'descendants'), ('anc', 'ancestor')):
+            if kind in kinds:
+                v = getattr(s, attr)
+                got = str(int(v)) if kind == 'level' else (','.join(str(x) for x in sorted(int(y.idx) for y in v)) or '-') if kind == 'desc' else str(int(v.idx))
+                diffs, ans = cache_diff(d, drv.ask('cache q %s %d' % (kind, s.idx)), label)
+                if ans is not None and ans != got:
+                    diffs.append('%s%s of structure %d: impl %s, cache model %s' % (label, kind, s.idx, got, ans))
+                res['corr'] += diffs
+                if diffs:
+                    return
+        if 'npix' in kinds:
+            s.get_npix()
+        if 'peak' in kinds:
+            s.get_peak()
+    if 'newick' in kinds:
+        d.to_newick()
+        for s in reversed(list(d.all_structures)):
+            drv.ask('cache q newick %d' % s.idx)
+        diffs, _ = cache_diff(d, drv.ask('cache q newick %d' % d.trunk[0].idx) if d.trunk else ['end'], label)
+        res['corr'] += diffs
+
+
 def gen_item_C14(rng, idx, tier):
     case = gen.gen_compute_case(rng, maxpix=40 if tier == 'quick' else 64)
     if rng.random() < 0.7:
@@ -308,18 +385,46 @@ def eval_C14(item):
     res['hyp'] = pc.hyp_failures(mobs)
     n_prunes = 0
     changed = False
+    import astrodendro.dendrogram as _dmod
+    heap_ok = 'bad' not in mobs
+    if heap_ok:
+        res['corr'] += cache_diff(d, drv.ask('cache init %s' % (','.join(str(k) for k in d._structures_dict.keys()) or '-')), 'after compute: ')[0]
     for i, op in enumerate([('compute',)] + list(item['ops'])):
         lab = 'step %d %s: ' % (i, op[0])
         if op[0] == 'warm':
-            session.warm(d, op[1])
+            if heap_ok:
+                mirror_queries(d, drv, op[1], res, lab)
+            else:
+                session.warm(d, op[1])
         elif op[0] == 'plotter':
             plot_positions(d)
+            if heap_ok:
+                for t in d.trunk:
+                    drv.ask('cache q desc %d' % t.idx)
+                if d.trunk:
+                    res['corr'] += cache_diff(d, drv.ask('cache q desc %d' % d.trunk[0].idx), lab)[0]
         elif op[0] == 'prune':
             before_n = len(d)
-            steps = _apply_prune(d, case, op, drv)
+            merged = []
+            orig_merge = _dmod._merge_with_parent
+
+            def _rec(m, index_map, merged=merged, orig_merge=orig_merge):
+                merged.append(int(m.idx))
+                return orig_merge(m, index_map)
+            if heap_ok and op[4]:
+                mirror_queries(d, drv, op[4], res, lab + 'warm-up: ')
+                op = (op[0], op[1], op[2], op[3], [])
+            _dmod._merge_with_parent = _rec
+            try:
+                steps = _apply_prune(d, case, op, drv)
+            finally:
+                _dmod._merge_with_parent = orig_merge
             mobs = steps
             n_prunes += 1
             changed = changed or len(d) != before_n
+            if heap_ok:
+                res['corr'] += cache_diff(d, drv.ask('cache prune %s %s' % (','.join(str(x) for x in merged) or '-',
+                                                                             ','.join(str(k) for k in d._structures_dict.keys()) or '-')), lab)[0]
         elif op[0] == 'reload':
             fmt = op[1]
             os.makedirs(WORK, exist_ok=True)
@@ -335,11 +440,24 @@ def eval_C14(item):
                 if os.path.exists(path):
                     os.remove(path)
             mobs = parse_block(drv.ask('reload'))
+            if heap_ok:
+                res['corr'] += cache_diff(d, drv.ask('cache init %s' % (','.join(str(k) for k in d._structures_dict.keys()) or '-')), lab)[0]
         wf = impl.forest_wellformed(d)
         if wf:
             res['pred'] += [lab + x for x in wf]
             break
+        # observing fills caches in the implementation: snapshot / restore them so that the mirrored
+        # cache machine sees only the operations of the history
+        snap = [(s, s._level, s._ancestor, s._descendants, s._npix_total, s._peak, s._peak_subtree, getattr(s, '_newick', None))
+                for s in d._structures_dict.values()]
         iobs = impl.observe(d, case)
+
+        def restore():
+            for s_, a1, a2, a3, a4, a5, a6, a7 in snap:
+                s_._level, s_._ancestor, s_._descendants, s_._npix_total, s_._peak, s_._peak_subtree = a1, a2, a3, a4, a5, a6
+                if hasattr(s_, '_newick'):
+                    s_._newick = a7
+        restore()
         # model = a function of the current forest, i.e. the fresh copy by construction
         res['corr'] += [lab + x for x in session.diff_obs(iobs, mobs, C14_KEYS, ['trunk', 'iter', 'lmap', 'newick'])]
         # independent oracle: a dendrogram rebuilt from links, label map and data
@@ -356,6 +474,7 @@ def eval_C14(item):
             res['pred'] += [lab + 'differs from a freshly constructed dendrogram: ' + x for x in dd]
         except Exception as e:
             res['pred'].append(lab + 'fresh copy could not be built: %s: %s' % (type(e).__name__, e))
+        restore()
         if res['pred']:
             break
     res['nontrivial'] = changed
